@@ -86,6 +86,12 @@ func (o vObservation) same(p vObservation) bool {
 func VerifC08NoTrace() {
 	n := nd.Param("n", 1)
 	c := vClient(false)
+	// optionally the table holds, from before its indexes existed, an item whose g is a number: it belongs to
+	// the table and to no index on g; requests aimed at it (| } ~) must obey the rule like any other
+	unfit := nd.Param("reads", 1) == 1 && nd.Choice("unfit-item-first", 2) == 1
+	if unfit {
+		nd.Assert(vPut(c, vItem{"p": vS("uu"), "g": vN("1"), "v": vS("x")}) == nil, "setup-put-unfit")
+	}
 	nd.Assert(AddIndex(vCtx, c, vTbl, vIdx, "g", "") == nil, "setup-addindex")
 	// a second index: a write is all-or-nothing across *all* indexes, whichever of them rejects the item
 	two := nd.Param("indexes", 1) >= 2
@@ -251,10 +257,25 @@ func VerifC08NoTrace() {
 			_, e := c.GetItem(vCtx, &dynamodb.GetItemInput{TableName: tbl, Key: vItem{"p": vN("1")}})
 			return e
 		},
+		func() error { // 27 (|): DeleteItem of the item that fits no index
+			_, e := c.DeleteItem(vCtx, &dynamodb.DeleteItemInput{TableName: tbl, Key: vItem{"p": vS("uu")}, ReturnValues: retVals[nd.Choice("retvals", 2)]})
+			return e
+		},
+		func() error { // 28 (}): UpdateItem of another attribute of that item
+			_, e := c.UpdateItem(vCtx, &dynamodb.UpdateItemInput{TableName: tbl, Key: vItem{"p": vS("uu")},
+				UpdateExpression: aws.String("SET v = :x"), ExpressionAttributeValues: vItem{":x": vS(x)}})
+			return e
+		},
+		func() error { // 29 (~): PutItem that replaces it by an item that fits
+			_, e := c.PutItem(vCtx, &dynamodb.PutItemInput{TableName: tbl, Item: vItem{"p": vS("uu"), "g": vS(x), "v": vS(x)}})
+			return e
+		},
 	}
 	nreq := len(reqs)
 	if nd.Param("reads", 1) == 0 {
 		nreq = 19
+	} else if !unfit {
+		nreq = 27
 	}
 	which := nd.Choice("request", nreq)
 	err, panicked = vCatch(reqs[which])
